@@ -127,7 +127,7 @@ func ApplyOp(d *document.Document, op Op, valBase int, fail string) (res Resolve
 				return nil
 			}
 			k := objKeys[mod(op.A, len(objKeys))]
-			v := fmt.Sprintf("s%d", uniq(valBase, op.V))
+			v := fmt.Sprintf("s%d :)", uniq(valBase, op.V)) // a closing parenthesis: YSON export/import (compaction) must keep it
 			o.SetString(k, v)
 			res.Args["key"], res.Args["val"] = k, v
 		case "obj.setobj":
